@@ -71,6 +71,7 @@ func runC20(c *Ctx) {
 	c.rule("H1w", "hashingAlgo.Hash is touched only by methods of hashingAlgo and its constructor", 2)
 	c.rule("H2", "the digest returned is hex.EncodeToString(Hash.Sum(nil)) computed after the copy; the copy reads the caller's reader itself into Hash", 3)
 	c.rule("H5", "a digest is returned only where the copy into the hasher reported no error at all", 1)
+	c.rule("H6", "before the copy into the hasher a reader is refused only where the parameter was found nil (or by the context gate): no predicate over the reader's content or state decides", 1)
 	c.rule("H3", "NewHashingAlgorithm maps each algorithm name to the standard, unkeyed constructor", 6)
 	c.rule("H4", "file hashing opens the requested path and passes that handle, unchanged, down to IHash.Calculate*", 6)
 
@@ -324,6 +325,36 @@ func (c *Ctx) c20Method(f *ssa.Function) int {
 				})
 				c.check(bad == "", "H5", fname(f)+"/digest-only-after-a-complete-copy", c.ipos(w), "every return that can report success lies on the side where the copy's error is nil",
 					"the return at "+bad+" can report success although the copy into the hasher reported an error (some error is tolerated after the copy): a reader cut short at byte k — io.ErrUnexpectedEOF, which the library converts to its EOF kind — yields the digest of the first k bytes and a nil error")
+			}
+			// H6: "independently of the reader that delivers it": before the copy, the only reason to refuse a reader is that
+			// there is none (a nil test on the parameter). A predicate that looks at the reader's content or state
+			// (reflection.IsEmpty, a length, a type switch) refuses some valid readers — an empty bytes.Buffer is a zero value.
+			if isParam {
+				bad := ""
+				allInstrs(f, func(in ssa.Instruction) {
+					r, isRet := in.(*ssa.Return)
+					if !isRet || dominates(w, r) {
+						return
+					}
+					// a return that does not come after the copy: nothing was read. It is the context gate's, or it lies where
+					// the reader was found nil
+					if !isErrorExit(f, r) {
+						return
+					}
+					gate := false
+					k := len(r.Results) - 1
+					for _, l := range sources(r.Results[k], deriveOpts{}) {
+						if cl, ok := l.(*ssa.Call); ok && strings.HasSuffix(calleeFull(&cl.Call), "DetermineContextError") {
+							gate = true
+						}
+					}
+					if gate || onNilSide(stripConv(rd), r) {
+						return
+					}
+					bad = c.ipos(r)
+				})
+				c.check(bad == "", "H6", fname(f)+"/only-a-nil-reader-is-refused", c.ipos(w), "before the copy a reader is refused only where it was found nil",
+					"the return at "+bad+" refuses the reader before anything is read although the reader was not found nil: whatever decides it looks at the reader itself, and readers of an empty content that happen to be zero values (new(bytes.Buffer), http.NoBody) get 'undefined' instead of the digest of the empty content")
 			}
 			// the callee must be the whole-stream copy
 			cal := calleeFull(&w.Call)
